@@ -342,8 +342,8 @@ fn crc(path: &str, seed: u64, out: &str, heavy_mode: bool) {
         let pdu = build(sh, &mut rng);
         let enc = pdu.clone().encode();
         pdus += 1;
-        // thorough tier: the dense pattern sets on every eighth PDU (all of them would take hours), the quick sets on the rest
-        let heavy = heavy_mode && pdus % 8 == 0;
+        // thorough tier: the dense pattern sets on every 32nd PDU (all of them would take hours), the quick sets on the rest
+        let heavy = heavy_mode && pdus % 32 == 0;
         // the CRC the code appended, for TLC to check against Crc.tla (short frames only: TLC evaluates bit by bit)
         if enc.len() <= 40 && recs < 60 {
             let n = enc.len();
